@@ -22,6 +22,8 @@ RULE = ("Systematic part: the whole (class, year, month) domain - 8 built-in cla
         "its expiry. Every case is non-trivial (a distinct part of the "
         "domain).")
 ASSUMPTIONS = ["the oracle is the property's own wording of the exchange rules; exchange holidays are not modelled by the property"]
+REQUIRED_CATS = ["explicit-contracts:list", "explicit-contracts:ndarray", "explicit-contracts:series-permuted-index",
+                 "explicit-contracts:series-filtered"]
 REQUIRED = ["C19:expiry-rule", "C19:cutoff-before-expiry", "C19:symbol", "C19:chain-ordered", "C19:chain-unique-symbols",
             "C19:chain-events"]
 TECHNIQUE = "runtime monitoring: exhaustive enumeration of the calendar domain against a datetime-only reference"
@@ -91,6 +93,40 @@ def check_chain(ctx, cls, start, end, month=0):
     lt = [c.last_trading_date for c in cs]
     ctx.check("C19:chain-ordered", all(a < b for a, b in zip(ex, ex[1:])) and all(a < b for a, b in zip(lt, lt[1:])),
               cls=cls.__name__, start=start, end=end, n=len(cs))
+    if 2 <= len(cs) <= 80 and ctx.rng.random() < 0.5:
+        # the same contracts handed over explicitly, in any order and in any of the usual containers (list,
+        # tuple, numpy array, pandas Series with a default / permuted / filtered index): the chain lists them
+        # in increasing expiry order all the same
+        import numpy as np
+        import pandas as pd
+        shuf = list(cs)
+        ctx.rng.shuffle(shuf)
+        kind = ctx.rng.choice(["list", "tuple", "ndarray", "series", "series-permuted-index", "series-filtered"])
+        want_cs = list(cs)
+        if kind == "list":
+            given = shuf
+        elif kind == "tuple":
+            given = tuple(shuf)
+        elif kind == "ndarray":
+            given = np.array(shuf, dtype=object)
+        elif kind == "series":
+            given = pd.Series(shuf)
+        elif kind == "series-permuted-index":
+            idx = list(range(len(shuf)))
+            ctx.rng.shuffle(idx)
+            given = pd.Series(shuf, index=idx)
+        else:
+            ser = pd.Series(shuf)
+            keep = [ctx.rng.random() < 0.7 for _ in shuf]
+            if sum(keep) < 2:
+                keep = [True] * len(shuf)
+            given = ser[keep]
+            want_cs = [c for c in cs if any(c is g for g in given)]
+        ch2 = FutureChain(contracts=given)
+        ctx.check("C19:chain-ordered", len(ch2.contracts) == len(want_cs) and all(a is b for a, b in zip(ch2.contracts, want_cs)),
+                  cls=cls.__name__, start=start, end=end, container=kind, got=[c.symbol for c in ch2.contracts][:12],
+                  want=[c.symbol for c in want_cs][:12])
+        ctx.cat("explicit-contracts:" + kind)
     syms = [c.symbol for c in cs]
     span_years = (ex[-1].year - ex[0].year) if cs else 0
     if span_years < 100:
